@@ -38,10 +38,14 @@ def slice_hyps(ctx, goal, extra=()):
         need |= set(f_vars(e)) & derived
     chosen = []
     byowner = {}
+    pre_ids = {id(h) for h in ctx.pre}
     for h in ctx.hyps:
         vs = f_vars(h) & derived
         if not vs:
             chosen.append(h)
+        elif id(h) in pre_ids:
+            chosen.append(h)          # the contract's precondition is always in force
+            need |= vs
         else:
             byowner.setdefault(max(vs), []).append((h, vs))
     todo = sorted(need, reverse=True)
